@@ -30,6 +30,11 @@ func main() {
 		fmt.Printf("loaded in %.1fs\n", ld.LoadSec)
 		j := &Job{ID: os.Args[3], Pkg: os.Args[2], Entry: os.Args[3], Workers: 8, IntMode: os.Getenv("SYMGO_INT") != "", PanicOK: os.Getenv("SYMGO_PANICOK") != ""}
 		j.OneShot = os.Getenv("SYMGO_ONESHOT") != ""
+		if os.Getenv("SYMGO_THREADS") != "" {
+			j.Threads = true
+			j.TimersNeverFire = true
+			fmt.Sscanf(os.Getenv("SYMGO_PREEMPT"), "%d", &j.Preempt)
+		}
 		if gc := os.Getenv("SYMGO_GOINLINECALLS"); gc != "" {
 			j.GoInlineCalls = strings.Split(gc, ",")
 			j.TimersNeverFire = true
@@ -115,6 +120,13 @@ func printResult(id string, r *JobResult) {
 	}
 	for _, k := range keys(r.Notes) {
 		fmt.Printf("  note x%d: %s\n", r.Notes[k], k)
+	}
+	cnt := map[string]int{}
+	for _, v := range r.Violations {
+		cnt[v.Kind+"|"+v.Msg]++
+	}
+	for k, n := range cnt {
+		fmt.Printf("  violations x%d: %s\n", n, k)
 	}
 	for i, v := range r.Violations {
 		if i > 10 {
